@@ -304,15 +304,26 @@ func c19SLAcceptable(v Verifier, rec *c19SLRow, status int, body []byte) string 
 	if err := v.VerifySignature(*cred, nil); err != nil {
 		return fmt.Sprintf("the stored document does not verify (%v)", err)
 	}
-	// the expiry column: only judged where the document is unambiguous about it
+	// The expiry column: only judged where the document is unambiguous about it. Member names are matched the way the
+	// node's decoder (encoding/json) matches them, ignoring case: "EXPIRATIONDATE" is honoured as expirationDate (and the
+	// proof still verifies, because it is checked over the re-marshalled credential).
 	if m, ok := stored.(map[string]any); ok {
-		_, hasUntil := m["validUntil"]
-		exp, hasExp := m["expirationDate"]
+		var exps []any
+		ambiguous := false
+		for k, val := range m {
+			switch strings.ToLower(k) {
+			case "expirationdate":
+				exps = append(exps, val)
+			case "validuntil", "validfrom":
+				ambiguous = true
+			}
+		}
 		switch {
-		case !hasExp && !hasUntil && rec.Expires != nil:
+		case ambiguous || len(exps) > 1:
+		case len(exps) == 0 && rec.Expires != nil:
 			return fmt.Sprintf("the document has no expirationDate but the record expires at %d", *rec.Expires)
-		case hasExp && !hasUntil:
-			if str, ok := exp.(string); ok {
+		case len(exps) == 1:
+			if str, ok := exps[0].(string); ok {
 				if ts, err := time.Parse(time.RFC3339, str); err == nil && !ts.IsZero() && (rec.Expires == nil || *rec.Expires != ts.Unix()) {
 					return fmt.Sprintf("the document expires at %d but the record says %v", ts.Unix(), rec)
 				}
